@@ -12,6 +12,7 @@ import (
 	"fmt"
 	"io"
 	"os"
+	"strings"
 	"sort"
 	"strconv"
 	"time"
@@ -93,6 +94,33 @@ func CheckRetained() []string {
 	return bad
 }
 
+// EqualMsg is Equal plus the error texts: only for comparing runs of ONE implementation with each
+// other (determinism), never against a model.
+func (t Transcript) EqualMsg(u Transcript) bool {
+	if !t.Equal(u) {
+		return false
+	}
+	for i := range t {
+		if t[i].Msg != u[i].Msg {
+			return false
+		}
+	}
+	return true
+}
+
+// FirstDiffMsg: first index where kind, bytes, checksum or error text differ.
+func FirstDiffMsg(t, u Transcript) int {
+	if i := FirstDiff(t, u); i >= 0 {
+		return i
+	}
+	for i := range t {
+		if t[i].Msg != u[i].Msg {
+			return i
+		}
+	}
+	return -1
+}
+
 // Records drops the terminal entry.
 func (t Transcript) Records() Transcript {
 	if n := len(t); n > 0 && (t[n-1].Kind == "eof" || t[n-1].Kind == "fatal") {
@@ -129,6 +157,7 @@ type Case struct {
 	Schema   string            `json:"schema"`
 	InputHex string            `json:"input_hex"`
 	Ext      map[string]string `json:"ext,omitempty"`
+	Funcs    int               `json:"funcs,omitempty"` // which Extension (custom function table): 0 = Funcs, 1 = FuncsB
 }
 
 func NewCase(format, schema string, input []byte) Case {
@@ -150,8 +179,16 @@ func FailIf(_ *transformctx.Ctx, s string) (string, error) {
 	return "ok:" + s, nil
 }
 
+// NormalizeA / NormalizeB: two different functions that two Extensions bind to the same name.
+func NormalizeA(_ *transformctx.Ctx, s string) (string, error) { return "nA:" + s, nil }
+func NormalizeB(_ *transformctx.Ctx, s string) (string, error) {
+	return "nB:" + strings.ToUpper(s) + "!", nil
+}
+
 var Funcs = customfuncs.Merge(customfuncs.CommonCustomFuncs, v21.OmniV21CustomFuncs,
-	customfuncs.CustomFuncs{"failif": FailIf})
+	customfuncs.CustomFuncs{"failif": FailIf, "normalize": NormalizeA})
+var FuncsB = customfuncs.Merge(customfuncs.CommonCustomFuncs, v21.OmniV21CustomFuncs,
+	customfuncs.CustomFuncs{"failif": FailIf, "normalize": NormalizeB})
 
 type capture struct {
 	decl   *transform.Decl
@@ -200,7 +237,10 @@ type Compiled struct {
 // Compile runs NewSchema with the built-in handler whose seven file formats are wrapped by a
 // layer that remembers the validated FINAL_OUTPUT declaration and the FormatReader of the next
 // transform (public extension points only).
-func Compile(schema string) (c *Compiled, err error) {
+func Compile(schema string) (c *Compiled, err error) { return CompileV(schema, 0) }
+
+// CompileV: variant 1 uses an Extension that binds the name normalize to another function.
+func CompileV(schema string, variant int) (c *Compiled, err error) {
 	defer func() {
 		if r := recover(); r != nil {
 			c, err = nil, fmt.Errorf("panic in NewSchema: %v", r)
@@ -217,7 +257,7 @@ func Compile(schema string) (c *Compiled, err error) {
 			c2.CreateParams = &omniv21.CreateParams{CustomFileFormats: wrapped}
 			return omniv21.CreateSchemaHandler(&c2)
 		},
-		CustomFuncs: Funcs,
+		CustomFuncs: []customfuncs.CustomFuncs{Funcs, FuncsB}[variant],
 	}
 	s, err := omniparser.NewSchema("s", bytes.NewReader([]byte(schema)), ext)
 	if err != nil {
@@ -251,6 +291,38 @@ func Unwatch() {
 }
 
 func maxReads(input []byte) int { return len(input) + 10 }
+
+// RunRealCtx is RunReal with a caller-owned *transformctx.Ctx (which may have been used for
+// other NewTransform calls before).
+func (c *Compiled) RunRealCtx(ctx *transformctx.Ctx, name string, input []byte) (tr Transcript) {
+	defer func() {
+		if r := recover(); r != nil {
+			tr = append(tr, Entry{Kind: "panic", Msg: fmt.Sprint(r)})
+		}
+	}()
+	t, err := c.Schema.NewTransform(name, bytes.NewReader(input), ctx)
+	if err != nil {
+		return Transcript{{Kind: "fatal", Msg: err.Error()}}
+	}
+	for i := 0; i < maxReads(input); i++ {
+		b, err := t.Read()
+		switch {
+		case err == nil:
+			e := Entry{Kind: "rec", JSON: retain(b, fmt.Sprintf("result %d", i))}
+			if raw, rerr := t.RawRecord(); rerr == nil && raw != nil {
+				e.Sum = raw.Checksum()
+			}
+			tr = append(tr, e)
+		case errs.IsErrTransformFailed(err):
+			tr = append(tr, Entry{Kind: "fail", Msg: err.Error()})
+		case err == io.EOF:
+			return append(tr, Entry{Kind: "eof"})
+		default:
+			return append(tr, Entry{Kind: "fatal", Msg: err.Error()})
+		}
+	}
+	return append(tr, Entry{Kind: "cap"})
+}
 
 // RunReal drives the public API: Schema.NewTransform, Read until a terminal result, and
 // RawRecord().Checksum() after every successful Read.
